@@ -4,18 +4,18 @@ translate it to lean/SIM/Extracted/Schema.lean; build theorems + driver; generat
 with the real serde impl, validate with python jsonschema (reference) and with the Lean validator."""
 import os, sys, subprocess, shutil, json, time
 
-SCH_DIR = '/verif/harness/schema'
-SCH_BIN = '/verif/.build/sch/debug/sch'
 
 
 def main(ck, pid, cfg, tier, seed, replay):
+    SCH_DIR = os.path.join(ck.VERIF, 'harness', 'schema')
+    SCH_BIN = os.path.join(ck.BUILD, 'sch', 'debug', 'sch')
     t0 = time.time()
     failures, stats, seen, samples = [], dict(evaluations=0, by_verdict={}, unmodelled=0), set(), []
     build_fail = None
     with ck.Lock('sch'):
         if os.path.exists('/repo/Cargo.lock'):
             shutil.copyfile('/repo/Cargo.lock', os.path.join(SCH_DIR, 'Cargo.lock'))
-        r = ck.sh(['cargo', 'build', '--offline', '--quiet'], cwd=SCH_DIR, timeout=3600)
+        r = ck.sh(['cargo', 'build', '--offline', '--quiet'], cwd=SCH_DIR, timeout=3600, env=dict(ck.ENV, CARGO_TARGET_DIR=os.path.join(ck.BUILD, 'sch')))
         if r.returncode != 0:
             build_fail = 'schema harness does not build against /repo with the schema feature: ' + r.stdout[-3000:]
     schema_file = os.path.join(ck.BUILD, 'run', 'schema.json')
